@@ -266,6 +266,7 @@ class Ex:
         self.region_writes = []
         self.first_index_facts = []
         self.while_obligations = []
+        self.inv_obligations = []        # (id, hyps, goal) of the invariant rule for `for` loops
         self._solver = None
         self._solver_n = -1
         self.depth = 0
@@ -1061,6 +1062,8 @@ class Ex:
         if kind == 'skip':
             pol[1](self, s)
             return
+        if kind == 'inv':
+            return self.for_with_invariant(s, pol[1], pol[2], lo, hi, cst)
         if kind in ('sym', 'gen', 'symseq'):
             label = pol[1]
             opts = pol[2] if len(pol) > 2 and isinstance(pol[2], dict) else {}
@@ -1099,6 +1102,53 @@ class Ex:
             self.havoc_after_loop(s, label)
             return
         raise OutsideSubset(f'unknown loop policy {kind}')
+
+    def restore_snapshot(self, snap):
+        self.env = dict(snap['env'])
+        for a in self.arrays:
+            if a.uid in snap['arr']:
+                a.st = snap['arr'][a.uid]
+        for k, vals in snap['loc'].items():
+            if isinstance(self.env.get(k), LocalArr):
+                self.env[k].vals = list(vals)
+        self.pc = list(snap['pc'])
+        self.guards = list(snap['guards'])
+
+    def for_with_invariant(self, s, label, opts, lo, hi, step):
+        """Invariant rule for `for v in range(lo, hi, +-1)` (DESIGN.md 2.4, rule 3).  The contract supplies
+          opts['install'](ex, v): put the executor into *the* state described by the invariant at loop head with loop
+                                  variable v (functional invariant: arrays get the invariant's read function, the scalars the
+                                  loop modifies get the invariant's terms or fresh symbols); may append facts to ex.pc
+          opts['claims'](ex, v) : [(name, goal)] -- the current state satisfies the invariant for loop variable v
+        Obligations recorded in self.inv_obligations: initiation (claims at v = lo in the state before the loop),
+        preservation (install at a fresh v in range, run the real body, claims at v + step).  After the loop the state is
+        the invariant at the exit value (max(lo, hi) for step 1, min(lo, hi) for step -1).  Nested loops use their own
+        policies while the body is run."""
+        if step not in (1, -1):
+            raise OutsideSubset('invariant rule: range step must be +-1')
+        if self.guards:
+            raise OutsideSubset('invariant loop under a guard')
+        if not isinstance(s.target, ast.Name):
+            raise OutsideSubset('invariant rule: loop target must be a name')
+        lo, hi = R(lo), R(hi)
+        for name, goal in opts['claims'](self, lo):
+            self.inv_obligations.append((f'{label}/initiation/{name}', list(self.hyps()), goal))
+        snap_label = f'{label}:inv-pre'
+        self.take_snapshot(snap_label)
+        saved = self.snap[snap_label]
+        v = z3.Int(f'{self.fp}{s.target.id}_{label}')
+        self.pc.extend([lo <= v, v < hi] if step == 1 else [hi < v, v <= lo])
+        opts['install'](self, v)
+        self.env[s.target.id] = v
+        self.take_snapshot(label + ':entry')
+        self.run_iteration(s.body)
+        self.take_snapshot(label)
+        for name, goal in opts['claims'](self, v + step):
+            self.inv_obligations.append((f'{label}/preservation/{name}', list(self.hyps()), goal))
+        self.restore_snapshot(saved)
+        vexit = z3.If(hi >= lo, hi, lo) if step == 1 else z3.If(hi <= lo, hi, lo)
+        opts['install'](self, z3.simplify(vexit))
+        self.env[s.target.id] = z3.Int(f'{self.fp}{s.target.id}_{label}_after')
 
     def summarise_map_loop(self, s, label, var, rng):
         """independent-iteration loop over 1-D arrays (rule 1): every iteration writes only cell [var] of each
